@@ -329,7 +329,7 @@ def gen_cases(tier, rng):
         rng.shuffle(rest_out)
         keep_out += rest_out[:12]
         cases, out = keep, keep_out
-    return cases + out + gen_object_cases(tier, rng)
+    return cases + out + gen_object_cases(tier, rng) + gen_decoy_cases(tier, rng)
 
 
 
@@ -342,7 +342,7 @@ from Reduino.Core import analog_read
 from Reduino.Utils import sleep
 target("COM3")
 """
-GEOMS = [(16, 2), (20, 4), (8, 1), (40, 2), (16, 4)]
+GEOMS = [(16, 2), (20, 4), (8, 1), (40, 2), (16, 4), ("4 * 4", "1 + 1"), ("2 - 1", 1), (1, "3 - 2")]
 MIN_PULSES = ["544", "600", "600.5", "599.5", "0.4", "1000.25", "-0.5", "700.0"]
 MAX_PULSES = ["2400", "2300", "2300.0", "2399.5", "2500.75"]
 CMD_FORMS = ['{n}.write(0, {r}, "w{k}")', '{n}.line({r}, "l{k}")', "{n}.clear()", "{n}.progress(0, {k}, 10)"]
@@ -353,7 +353,7 @@ def lcd_ctor(rng, kind, bl_pool):
     cols, rows = rng.choice(GEOMS)
     geom = rng.choice(["", "kw", "kw", "pos"])
     if kind == "I":
-        addr = rng.choice(["0x27", "0x3F", "38", "av", "0x20"])
+        addr = rng.choice(["0x27", "0x3F", "38", "av", "0x20", "0", "0x00", "0x27 - 39", "1 - 1"])
         args = [f"i2c_addr={addr}"]
         if geom:
             args += [f"cols={cols}", f"rows={rows}"]
@@ -363,6 +363,8 @@ def lcd_ctor(rng, kind, bl_pool):
         return ", ".join(args)
     pins = rng.sample(range(22, 44), 7)
     pin_txt = [str(x) for x in pins[:6]]
+    if rng.random() < 0.2:
+        pin_txt[rng.randrange(6)] = rng.choice(["0", "0x0", "2 - 2"])        # falsy-looking pin values
     if rng.random() < 0.2:
         pin_txt[rng.randrange(6)] = "pv"
     if rng.random() < 0.5:
@@ -533,6 +535,106 @@ def gen_object_cases(tier, rng):
         src, declared, mix = script_resolution(seq, with_fn=(k % 3 == 0))
         cases.append({"src": src, "cat": "in", "kind": "in:objects:resolution", "declared": declared, "rebind_mixed": mix, "nocompile": tier != "thorough" and k % 8 != 0,
                       "meta": {"family": "resolution", "seq": seq}})
+    return cases
+
+
+
+# ---------------------------------------------------------------- decoys and falsy-looking values
+# ordinary values whose TEXT mentions a library class (a string shown to the user, a variable, an LED or a motor whose
+# identifier ends in the class name): they need no library.  (name, declaration lines, lines for the loop body)
+DECOYS = [
+    ("str-servo", ['title = "Servo tester v2"'], []),
+    ("str-lcd", ['banner = "no LiquidCrystal attached"'], []),
+    ("str-i2c", ['note = "LiquidCrystal_I2C backpack at 0x27"'], []),
+    ("str-include", ['hint = "#include <Servo.h>"'], []),
+    ("var-servo", ["panServo = 90"], ["panServo = panServo + 1"]),
+    ("var-lcd", ["rowsLiquidCrystal = 2"], ["rowsLiquidCrystal = rowsLiquidCrystal + 1"]),
+    ("var-i2c", ["addrLiquidCrystal_I2C = 39"], ["addrLiquidCrystal_I2C = addrLiquidCrystal_I2C + 1"]),
+    ("var-exact-servo", ["Servo_ = 1", "LiquidCrystal_ = 2"], ["Servo_ = Servo_ + LiquidCrystal_"]),
+    ("led-servo", ["statusServo = Led(13)"], ["statusServo.toggle()"]),
+    ("led-lcd", ["myLiquidCrystal = Led(12)"], ["myLiquidCrystal.toggle()"]),
+    ("led-i2c", ["okLiquidCrystal_I2C = Led(2)"], ["okLiquidCrystal_I2C.on()"]),
+    ("motor-servo", ["driveServo = DCMotor(4, 7, 3)"], ["driveServo.stop()"]),
+    ("buzzer-lcd", ["beepLiquidCrystal = Buzzer(8)"], ["beepLiquidCrystal.beep()"]),
+]
+REAL = {"S": ["arm = Servo(9)"], "P": ["lcdp = LCD(rs=12, en=11, d4=5, d5=4, d6=3, d7=2)"], "I": ["lcdi = LCD(i2c_addr=0x27)"]}
+REAL_USE = {"S": ["arm.write(10)"], "P": ['lcdp.line(0, "p")'], "I": ['lcdi.line(1, "i")']}
+
+
+def script_decoy(decoys, real, decoy_first):
+    lines = [IMPORTS.rstrip("\n")]
+    dl = [l for _, d, _ in decoys for l in d]
+    rl = [l for g in real for l in REAL[g]]
+    lines += (dl + rl) if decoy_first else (rl + dl)
+    body = [l for _, _, u in decoys for l in u] + [l for g in real for l in REAL_USE[g]] + ["sleep(20)"]
+    lines += ["while True:"] + ind(body)
+    return "\n".join(lines) + "\n"
+
+
+# constructor values that are falsy in Python although they denote a device: bus address 0, pin 0, ...
+ZERO_LCDS = ["z = LCD(i2c_addr=0)", "z = LCD(i2c_addr=0x00, cols=20, rows=4)", "z = LCD(i2c_addr=0x27 - 39)", "z = LCD(cols=16, rows=2, i2c_addr=1 - 1)",
+             "z = LCD(i2c_addr=0, backlight_pin=0)", "z = LCD(0, 1, 2, 3, 4, 5)", "z = LCD(rs=0, en=0, d4=0, d5=0, d6=0, d7=0)",
+             "z = LCD(rs=7, en=0, d4=5, d5=4, d6=3, d7=2, rw=0, backlight_pin=0)", "z = LCD(12, 11, 5, 4, 3, 2, cols=0, rows=0)",
+             "z = LCD(i2c_addr=0, cols=0, rows=0)", "z = LCD(12, 11, 5, 4, 3, 2, 2 - 1, 1)"]
+ZERO_SERVOS = ["zs = Servo(0)", "zs = Servo(pin=0, min_angle=0, max_angle=1)", "zs = Servo(0, min_pulse_us=0, max_pulse_us=1)", "zs = Servo(9, min_pulse_us=0.0, max_pulse_us=0.4)"]
+
+
+def script_zero(lcd, servo, extra, servo_in_loop):
+    lines = [IMPORTS.rstrip("\n")]
+    declared = set()
+    for g in extra:
+        lines += REAL[g]
+        declared.add(KIND_LIB[g])
+    if lcd is not None:
+        lines.append(lcd)
+        declared.add("LiquidCrystal_I2C" if "i2c_addr" in lcd else "LiquidCrystal")
+        lines.append('z.line(0, "z")')
+    body = []
+    if servo is not None:
+        declared.add("Servo")
+        if servo_in_loop:
+            body.append(servo)
+        else:
+            lines.append(servo)
+        body.append("zs.write(10)")
+    lines += ["while True:"] + ind(body + [l for g in extra for l in REAL_USE[g]] + ["sleep(20)"])
+    return "\n".join(lines) + "\n", declared
+
+
+def gen_decoy_cases(tier, rng):
+    import itertools
+    cases = []
+    reals = ["", "S", "P", "I", "SP", "SI", "PI", "SPI"]
+    k = 0
+    for d in DECOYS:
+        for real in reals:
+            if tier != "thorough" and real not in ("", "S", "P", "I") and (k % 3):
+                k += 1
+                continue
+            k += 1
+            cases.append({"src": script_decoy([d], real, decoy_first=bool(k % 2)), "cat": "in", "kind": "in:decoy:" + d[0].split("-")[0],
+                          "declared": {KIND_LIB[g] for g in real}, "nocompile": tier != "thorough" and bool(k % 4),
+                          "meta": {"family": "decoy", "decoy": d[0], "real": real}})
+    for n in range(24 if tier != "thorough" else 200):
+        ds = rng.sample(DECOYS, rng.choice([2, 3, 4]))
+        real = rng.choice(reals)
+        cases.append({"src": script_decoy(ds, real, decoy_first=bool(n % 2)), "cat": "in", "kind": "in:decoy:mixed",
+                      "declared": {KIND_LIB[g] for g in real}, "nocompile": tier != "thorough" and bool(n % 4),
+                      "meta": {"family": "decoy", "decoy": [d[0] for d in ds], "real": real}})
+    n = 0
+    for lcd in ZERO_LCDS + [None]:
+        for servo in [None] + ZERO_SERVOS:
+            if lcd is None and servo is None:
+                continue
+            n += 1
+            if tier != "thorough" and lcd is not None and servo is not None and n % 3:
+                continue
+            extra = ["", "I", "P", "S"][n % 4]
+            if servo is not None:
+                extra = extra.replace("S", "")
+            src, declared = script_zero(lcd, servo, extra, servo_in_loop=bool(n % 2))
+            cases.append({"src": src, "cat": "in", "kind": "in:zero-valued-arguments", "declared": declared, "nocompile": tier != "thorough" and bool(n % 3),
+                          "meta": {"family": "zero", "lcd": lcd, "servo": servo, "extra": extra}})
     return cases
 
 
